@@ -15,7 +15,7 @@ P = {'id': 'C08',
               'treiber_uaf_refuted'],
  'trusted': ['modelled (M+S): src/memory/lockfree_pool.rs allocate_from_fast_bin / deallocate_to_fast_bin / allocate_new_block and src/memory/five_level_pool.rs '
              'LockFreePool::alloc_from_fast_bin_lockfree / free_to_fast_bin_lockfree (one bin, generation-tagged head, link word inside the block, count, bump '
-             'allocation incl. the two out-of-memory behaviours) as a sequentially consistent small-step machine with one step per shared access; '
+             'allocation: load + compare-exchange of next_offset in lockfree_pool.rs, one step under the mutex in five_level_pool.rs) as a sequentially consistent small-step machine with one step per shared access; '
              'src/memory/secure_pool.rs LockFreeStack::{push,pop} as a small-step machine over a heap whose allocator may reuse any free address (refutations only)',
              'tie: #[cfg(zipora_verif)] schedule points before every shared access of those functions (src/memory/verif_sched.rs); real threads are parked at '
              'every point by a baton scheduler, the schedule and every value the code observed (loaded heads, link words, exchange outcomes, bump offsets), the '
